@@ -28,6 +28,12 @@ SOURCES = [
     # forced collisions: the same struct / function / global names as earlier sources, with different definitions
     ("struct-globals-variant", "struct SG { float2 v; int extra; int n; }\nfloat g0;\nSG gs;\nint[3] ga;\nexport function f(int a) -> int { gs.n = a + 1; gs.extra = 7; ga[2] = a; g0 = 0.5; return gs.n + gs.extra + ga[2]; }\n"),
     ("overloads-variant", "function h(int p) -> float { return 0.5; }\nfunction h(float2 p, int q) -> int { return 3; }\nexport function f(int a, float x) -> float { return h(a) + h(float2(x, x), a); }\n"),
+    # several functions the wasm back end translates (export and function order), named so that their hashes differ
+    ("many-exports", "export function fa(int a) -> int { return a + 1; }\nexport function zeta(float x) -> float { return x * 2.0; }\nexport function fc(int a, int b) -> int { return a * b; }\n"
+                     "export function mid(float x, int a) -> float { return x + 0.5; }\nexport function b2(int a) -> int { return a - 7; }\n"),
+    # module-level variables named like the parameters / locals of the other sources, and the other way round
+    ("globals-named-like-locals", "int a;\nfloat x;\nint t;\nint i;\nint v;\nfloat3 w;\nfloat3 r;\nexport function f(int q) -> int { a = q; t = a + 1; i = t; v = i; x = 0.5; return t + v; }\n"),
+    ("locals-named-like-globals", "export function f(int g0, float gs) -> float { int ga = g0 + 1; float n = gs; return ga + n; }\n"),
     ("rejected-typing", "export function f(int a, float2 v) -> int { return a + v; }\n"),
     ("fails-lowering", "function g(int a) -> int;\nexport function f(int a) -> int { return a; }\n"),
 ]
